@@ -627,7 +627,12 @@ func runSelect(c *hx.Ctx, g *gen, l *loop, viaHandshake bool, mode int) {
 	if mode == 1 {
 		g.crossCase(bases, cs, &sni, &protos)
 	}
-	mng, err := buildManager(cs, false, nil)
+	// handshakes also go through inspector-mode listeners (the peeked 0x16 byte must be replayed to the TLS server)
+	inspector := viaHandshake && g.r.Bool()
+	if inspector {
+		c.Count("hs.inspector-listener")
+	}
+	mng, err := buildManager(cs, inspector, nil)
 	if err != nil {
 		c.Count("sel.build-error")
 		return
